@@ -39,15 +39,24 @@ class Cfg:
         self.eps = math.log1p(1.0 / DTOL) / self.lnB
         self.cache = {}
         self.exact_calls = 0
-        l0 = math.log(2.0) / self.lnB
-        self.t0max = max([k for k in range(max(0, int(l0) - 1), int(l0) + 3) if self.acc_ok(0, k)] or [-1])
+        self._t0max = None
+        self.line = None          # the harness op that creates this configuration, when it is not `cfg`
+
+    @property
+    def t0max(self):
+        if self._t0max is None:
+            l0 = math.log(2.0) / self.lnB
+            self._t0max = max([k for k in range(max(0, int(l0) - 1), int(l0) + 3) if self.acc_ok(0, k)] or [-1])
+        return self._t0max
 
     def cfg_line(self):
-        return f"cfg {self.name} {self.base} {self.shift}"
+        return self.line or f"cfg {self.name} {self.base} {self.shift}"
 
     def driver_cfg_line(self):
         """generated configurations are looked up by name in the Lean library; a dynamic one hands the
         table dumped in this run to the model"""
+        if self.line and self.line.startswith("cfg0 "):
+            return f"cfgnotab {self.name} {self.shift}"
         if not self.dyn:
             return self.cfg_line()
         return f"cfgdyn {self.name} {self.shift} " + ",".join(f"{v}:{n}" for v, n in gen_logtables.rle(self.vals))
@@ -263,7 +272,7 @@ def driver_ops(ops, hout, cfg=None):
                 res.append("bad-harness-line")
         elif w[0] == "exp":
             res.append(f"exparg {w[1]}")
-        elif w[0] == "cfg" and cfg is not None and cfg.dyn:
+        elif w[0] in ("cfg", "cfg0") and cfg is not None and (cfg.dyn or cfg.line):
             res.append(cfg.driver_cfg_line())
         else:
             res.append(op)
@@ -364,6 +373,12 @@ def run_case(c, binp, cfg, ops, metas=None, stats=None, _depth=0):
         elif w[0] == "exp":
             f, g = hl.split(), ml.split()
             if len(f) == 3 and f[1] == "oor":
+                if abs(int(w[1])) * cfg.lnB <= 700.0:
+                    problems.append({"kind": "exp", "op": op, "impl": "0 or inf", "model": ml,
+                                     "reason": f"logmath_exp returned 0 or inf although base^(l << shift) = e^{int(w[1]) * cfg.lnB:.2f} "
+                                               "is representable: a positive probability is lost entirely (more than one unit)",
+                                     "impl_violates": True})
+                    continue
                 # pow() under/overflowed: the exponent cannot be recovered from the result; outside the modelled range
                 if stats is not None:
                     stats["exp_out_of_range"] = stats.get("exp_out_of_range", 0) + 1
@@ -483,6 +498,196 @@ def branch_coverage(cfg, ops):
     return tot
 
 
+# --------------------------------------------------------------------------
+# table-less objects: bases very close to 1 (log values reach and pass log-zero while base^zero is
+# still representable) — conversions only
+
+def zero_of(shift):
+    return -(2 ** 31) >> (shift + 2)
+
+
+def notab_cfg(name, base, shift):
+    cfg = Cfg(name, base, Fraction(base), shift, {"size": 0, "zero": zero_of(shift), "width": 0, "shift": shift}, [])
+    cfg.line = f"cfg0 {name} {base} {shift}"
+    return cfg
+
+
+def near_one_specs(rng, tier):
+    if tier == "quick":
+        specs = [("1.000001", 0), ("1.000001", 2), ("1.0000005", 1), ("1.00001", 4)]
+    else:
+        specs = [(b, sh) for b in ("1.000001", "1.0000005", "1.0000012", "1.000003", "1.00001") for sh in range(5)]
+    for _ in range(1 if tier == "quick" else 10):
+        u = 0.2 + rng.below(10 ** 6) / 1e6 * (1.2 if rng.chance(0.6) else 9.8)
+        specs.append((f"{1 + u * 1e-6:.9f}", rng.below(5)))
+    return specs
+
+
+def near_one_ps(cfg, rng, n):
+    """probabilities whose logarithm lands at log-zero - 3 .. + 3, from the smallest normal double up,
+    and random ones"""
+    lnb, z, unit = cfg.lnB / 2 ** cfg.shift, cfg.zero, 2 ** cfg.shift
+    ps = [2.2250738585072014e-308, 2.3e-308, 1e-307, 1e-300, 1e-250, 1e-234, 7e-234, 1e-233, 1e-200, 1e-100, 0.5, 1.0, 2.0]
+    for j in range(-3, 4):
+        for fr in (0.0, 0.3, 0.5, 0.9):
+            ps.append(math.exp(((z + j) * unit + fr * unit) * lnb))
+    for _ in range(n):
+        ps.append(math.exp(-(rng.below(10 ** 6) / 1e6) * 708.0))
+    # log_b p must fit an int (assumption of the check: the `(int)` conversion is undefined beyond it)
+    return [p for p in ps if p == p and p != float("inf") and (p <= 0 or abs(math.log(p)) / lnb < 2.0e9)]
+
+
+def gen_notab_ops(cfg, rng, tier, stats):
+    z = cfg.zero
+    ops = [cfg.cfg_line()]
+    for p in near_one_ps(cfg, rng, 40 if tier == "quick" else 2000):
+        ops.append(f"log {float(p).hex()}")
+        stats["log_ops"] += 1
+    lmax = int(690.0 / (cfg.lnB / 2 ** cfg.shift)) >> cfg.shift
+    ls = [z + j for j in range(-3, 4)] + [0, 1, -1, lmax, -lmax] + [rng.range(-lmax, lmax) for _ in range(20 if tier == "quick" else 1000)]
+    for l in ls:
+        l = max(-lmax, min(lmax, l, (2 ** 31 - 1) >> cfg.shift), -(2 ** 31) >> cfg.shift)
+        ops.append(f"exp {l}")
+        stats["exp_ops"] += 1
+    return ops
+
+
+def judge_roundtrip(cfg, p, L, r):
+    """exp(log p) on the real code, judged on the doubles: when base^(L << shift) is representable the
+    result must be positive, not more than one (shifted) unit below p and — D20 apart — less than one
+    base unit above it"""
+    if not p > 0:
+        return None
+    if abs(L) * cfg.lnB > 700.0:
+        return None
+    if not (r > 0.0) or r == float("inf"):
+        return (f"exp(log p) = {r} for p = {p!r}: log p = {L} (zero = {cfg.zero}), base^(L << shift) = e^{L * cfg.lnB:.2f} "
+                "is representable — a positive probability comes back as zero (loses more than one unit)")
+    dl, tol = math.log(r) - math.log(p), 1e-9 * max(1.0, abs(math.log(p)))
+    if dl <= -cfg.lnB - tol:
+        return f"exp(log p) loses one unit or more: ln(exp(log p)/p) = {dl:.3e} <= -ln B = {-cfg.lnB:.3e}"
+    if dl >= cfg.lnB / 2 ** cfg.shift + tol:
+        return f"exp(log p) exceeds p by one base unit or more: ln(exp(log p)/p) = {dl:.3e}"
+    return None
+
+
+# --------------------------------------------------------------------------
+# the table-less addition path: logmath_add_exact, and logmath_add on an object without table
+# (floating point: judged by the oracle only)
+
+ETA = 1e-5     # float noise allowance of the pow/log pair, in shifted units
+
+
+def exact_specs(cfgs, rng, tier):
+    bases = []
+    for g in cfgs.values():
+        if g.base not in bases:
+            bases.append(g.base)
+    return [(b, sh) for b in bases for sh in (0, 1, 4, 8, 10)]
+
+
+def gen_exact_ops(base, shift, rng, tier):
+    lnB = math.log1p(float(Fraction(base) - 1)) * 2 ** shift
+    lim = int(600.0 / lnB)                       # |x| <= lim keeps base^(x << shift) well inside the double range
+    z = zero_of(shift)
+    ops = [f"cfgx x {base} {shift}"]
+    x0s = [0, -rng.below(max(1, min(1000, lim // 3))), rng.below(max(1, min(200, lim // 3)))]
+    if tier != "quick":
+        x0s += [-rng.below(max(1, lim // 2)) for _ in range(6)]
+    for x0 in x0s:
+        cnt = max(3, min(3000 if tier == "quick" else 20000, lim - abs(x0) - 1))
+        ops.append(f"sweepx {x0} {x0} 0 -1 {cnt}")
+        ops.append(f"sweepx {x0} {x0} -1 0 {cnt}")
+    # log-zero on either side of the table-less logmath_add
+    ops.append(f"sweepx {z - 2} -5 1 0 5")
+    ops.append(f"sweepx -5 {z - 2} 0 1 5")
+    return ops
+
+
+def run_exact(c, binp, ops, stats=None):
+    """harness-only ops (cfgx / cfg0 + sweepx / rt); returns problems"""
+    rc, out, err = vlib.run_bin(binp, stdin_text="\n".join(ops) + "\n", timeout=900)
+    lines = out.split("\n")[:-1]
+    problems = []
+    if rc != 0 or len(lines) != len(ops):
+        problems.append({"kind": "harness-abort", "op": ops[min(len(lines), len(ops) - 1)], "cfg_op": ops[0], "exit_code": rc,
+                         "stderr_tail": err[-2000:], "impl_violates": True,
+                         "reason": "the real code did not return (sanitizer report / abort) on this op"})
+    cfg, cfg_op, prev = None, None, None
+    for op, hl in zip(ops, lines):
+        w, f = op.split(), hl.split()
+        if w[0] in ("cfgx", "cfg0"):
+            cfg_op, prev = op, None
+            cfg = Cfg(w[1], w[2], Fraction(w[2]), int(w[3]), {"size": int(f[3]), "width": int(f[5]), "zero": int(f[9])}, [])
+            cfg.line = op
+            continue
+        if w[0] == "rt":
+            p, L, r = float.fromhex(w[1]), int(f[1]), float.fromhex(f[2])
+            why = judge_roundtrip(cfg, p, L, r)
+            if stats is not None:
+                stats["roundtrips"] = stats.get("roundtrips", 0) + 1
+                if p > 0 and L <= cfg.zero and abs(L) * cfg.lnB <= 700.0:
+                    stats["roundtrips_at_or_below_log_zero_representable"] = stats.get("roundtrips_at_or_below_log_zero_representable", 0) + 1
+            if why:
+                problems.append({"kind": "roundtrip", "op": op, "cfg_op": cfg_op, "impl": hl, "reason": why, "impl_violates": True})
+            continue
+        x, y, dx, dy, n = sweep_args(op)
+        vals = [int(t) for t in f[1:]]
+        trip = [tuple(vals[3 * i:3 * i + 3]) for i in range(n)]
+        z, unit = cfg.zero, 2.0 ** -cfg.shift
+        for j, (e, n0, t) in enumerate(trip):
+            xj, yj = x + j * dx, y + j * dy
+            why = None
+            if xj <= z or yj <= z:
+                want = yj if xj <= z else xj
+                if n0 != want:
+                    why = f"table-less logmath_add: log-zero is not the identity: {n0}, expected {want}"
+            else:
+                m, d = max(xj, yj), abs(xj - yj)
+                cor = cfg.corr(d)
+                dev = e - (m + cor)
+                if not (-1.0 - ETA < dev <= unit + ETA):
+                    why = (f"logmath_add_exact inaccurate: result {e} = max + {e - m} but log_B(1 + B^-{d}) = {cor:.6f} "
+                           f"(the truncating exact path must lie in (-1, +2^-shift] of it)")
+                elif e < m - 1 or (e < m and cor > 1e-4):
+                    why = f"logmath_add_exact result {e} smaller than the larger argument {m}"
+                elif e - m > cfg.corr(0) + unit + ETA:
+                    why = f"logmath_add_exact exceeds the larger argument by {e - m} > log_B 2 = {cfg.corr(0):.4f}"
+                elif n0 != e:
+                    why = f"logmath_add on a table-less object returned {n0}, logmath_add_exact {e}"
+                elif abs(t - e) > 1:
+                    why = f"table-driven logmath_add = {t} and logmath_add_exact = {e} differ by more than one unit"
+            if why:
+                problems.append({"kind": "addx", "op": f"sweepx {xj} {yj} 0 0 1", "cfg_op": cfg_op, "from": op, "impl": [e, n0, t],
+                                 "reason": why, "impl_violates": True})
+                break
+        if stats is not None:
+            stats["exact_path_evaluations"] = stats.get("exact_path_evaluations", 0) + n
+        # symmetry: consecutive sweeps with swapped roles
+        if prev is not None and prev[0] == (y, x, dy, dx, n) and prev[1] != trip:
+            j = next(k for k in range(n) if prev[1][k] != trip[k])
+            problems.append({"kind": "addx", "op": f"sweepx {x + j * dx} {y + j * dy} 0 0 1", "cfg_op": cfg_op, "from": op,
+                             "impl": list(trip[j]), "swapped": list(prev[1][j]),
+                             "reason": "not symmetric: the swapped call returned different values", "impl_violates": True})
+        prev = ((x, y, dx, dy, n), trip)
+    return problems
+
+
+def report_exact(c, problems, label):
+    clean, seen = True, set()
+    for p in problems:
+        if (p["kind"], p.get("cfg_op")) in seen:
+            continue
+        seen.add((p["kind"], p.get("cfg_op")))
+        replay = dict(p)
+        replay.update({"ops": [p.get("cfg_op") or "cfgx x 1.0001 0", p["op"]], "where": label, "harness_only": True,
+                       "implementation_violates_property": True,
+                       "how_to_rerun": "python3 tools/check.py C19 --replay <this file>"})
+        c.violation(replay, True)
+        clean = False
+    return clean
+
+
 def private_harness(c):
     """a private copy of the harness binary: the shared build cache prunes old library builds
     (and the binaries next to them) while a long run is still using them"""
@@ -502,7 +707,9 @@ def check(c):
                   "tools/gen_logtables.py + harness/h_c19.c `dump` (table dump, run-length encoding)",
                   "harness/h_c19.c + tools/props/c19.py (generators, exact-rational oracle, diff)",
                   "the base is read as the rational its decimal string denotes (1.0001 = 10001/10000); the C code uses the nearest double"]
-    c.assumptions += ["a table is present (use_table = 1; without it logmath_add calls the floating-point logmath_add_exact)",
+    c.assumptions += ["the Lean model of logmath_add assumes a table (use_table = 1); the table-less path (logmath_add_exact, floating "
+                      "point) is judged by the oracle only, inside the range where base^(x << shift) is representable, with the "
+                      "tolerance a truncating conversion can meet (within one unit below, 2^-shift above)",
                       "no `int` overflow in C: |x - y| < 2^31 and result <= INT_MAX (signed overflow is undefined in C and traps "
                       "under UBSan; the model's `d < 0` branch, which mirrors the guard the code has, is covered by the theorems "
                       "but cannot be exercised on the sanitised build)",
@@ -558,6 +765,28 @@ def check(c):
         allok &= report(c, cfg, run_case(c, binp, cfg, ops, metas, stats), f"generated ops, {label}")
         dyn_info.append({"what": label, "base": float.fromhex(base_hex), "shift": sh, "size": cfg.size, "width": cfg.width,
                          "t0": cfg.vals[0], "table_ok": not bad})
+    # table-less objects for bases within 1e-5 of 1: conversions at and around log-zero
+    near_info = []
+    for base, sh in near_one_specs(c.rng, c.tier):
+        cfg = notab_cfg("nt", base, sh)
+        ops = gen_notab_ops(cfg, c.rng, c.tier, stats)
+        nops += len(ops)
+        allok &= report(c, cfg, run_case(c, binp, cfg, ops, None, stats), f"conversions, table-less object, base {base} shift {sh}")
+        rts = [cfg.cfg_line()] + [f"rt {float(p).hex()}" for p in near_one_ps(cfg, c.rng, 40 if c.tier == "quick" else 2000)]
+        nops += len(rts)
+        allok &= report_exact(c, run_exact(c, binp, rts, stats), f"round trip, base {base} shift {sh}")
+        near_info.append({"base": base, "shift": sh, "zero": cfg.zero, "base_pow_zero_representable": abs(cfg.zero) * cfg.lnB <= 700.0})
+    # round trips on the generated configurations too
+    for g in cfgs.values():
+        rts = [f"cfg0 {g.name} {g.base} {g.shift}"] + [f"rt {float(p).hex()}" for p in near_one_ps(g, c.rng, 40 if c.tier == "quick" else 2000)]
+        nops += len(rts)
+        allok &= report_exact(c, run_exact(c, binp, rts, stats), f"round trip, config {g.name}")
+    # the table-less addition path (logmath_add_exact / logmath_add without table), every base at shifts 0,1,4,8,10
+    xspecs = exact_specs(cfgs, c.rng, c.tier)
+    for base, sh in xspecs:
+        ops = gen_exact_ops(base, sh, c.rng, c.tier)
+        nops += len(ops)
+        allok &= report_exact(c, run_exact(c, binp, ops, stats), f"table-less addition, base {base} shift {sh}")
     c.oblige(f"oracle: the {len(dyn_info)} tables dumped for width-boundary and random bases are non-increasing, "
              f"1-Lipschitz and accurate at every entry judged and beyond", not dyn_bad, dyn_bad[:4])
     tables_ok &= not dyn_bad
@@ -566,7 +795,8 @@ def check(c):
     hit = {k for br in branches.values() for k, v in br.items() if v > 0}
     never = sorted({"x-zero", "y-zero", "overflow", "beyond", "table-x", "table-y"} - hit)
     c.cov.update({
-        "evaluations": stats["adds_evaluated"] + stats["log_ops"] + stats["exp_ops"],
+        "evaluations": stats["adds_evaluated"] + stats["log_ops"] + stats["exp_ops"] + stats.get("exact_path_evaluations", 0)
+        + stats.get("roundtrips", 0),
         "distinct_nontrivial": sum(min(cfg.size + 3, 10 ** 9) for cfg in cfgs.values()) + stats["log_ops"],
         "rule": "distinct_nontrivial = number of distinct (configuration, difference) pairs 0..size+2 covered exhaustively "
                 "(each at several offsets and in both argument orders) plus the number of probabilities converted; "
@@ -578,6 +808,13 @@ def check(c):
         "log_value_classes": stats["log_classes"],
         "exp_results_out_of_pow_range_not_judged": stats.get("exp_out_of_range", 0),
         "dynamic_configurations": dyn_info,
+        "near_one_bases_conversions_only": near_info,
+        "roundtrips_judged": stats.get("roundtrips", 0),
+        "roundtrips_at_or_below_log_zero_with_representable_result": stats.get("roundtrips_at_or_below_log_zero_representable", 0),
+        "exact_path": {"base_shift_pairs": [list(x) for x in xspecs], "evaluations": stats.get("exact_path_evaluations", 0),
+                       "tolerance": "logmath_add_exact - (max + log_B(1+B^-d)) in (-1-1e-5, 2^-shift+1e-5] (it truncates, it does not round); "
+                                    "equal to logmath_add on a table-less object; within 1 of the table-driven result; symmetric; "
+                                    ">= max (up to float noise when the correction is < 1e-4); <= max + log_B 2 + 2^-shift"},
         "model_branches_hit": branches,
         "model_branches_never_hit": never,
         "table_oracle_ok": tables_ok,
@@ -598,7 +835,17 @@ def replay(c, path):
     c.lean_obligations()
     obj = json.loads(open(path).read())
     binp = private_harness(c)
+    if obj.get("harness_only"):
+        probs = run_exact(c, binp, obj["ops"])
+        report_exact(c, probs, "replay")
+        c.cov.update({"evaluations": len(obj["ops"]), "distinct_nontrivial": 1, "replayed_problems": probs[:5]})
+        return
     w = obj["ops"][0].split()
+    if w[0] == "cfg0":
+        cfg = notab_cfg(w[1], w[2], int(w[3]))
+        report(c, cfg, run_case(c, binp, cfg, obj["ops"]), "replay")
+        c.cov.update({"evaluations": len(obj["ops"]), "distinct_nontrivial": 1})
+        return
     cfg = load_dyn(binp, w[2], int(w[3]), obj.get("config")) if w[1] == "dyn" else load_cfgs()[w[1]]
     if obj.get("kind") == "table":
         bad = check_table(c, cfg)
